@@ -906,11 +906,36 @@ func c07Render(e *env, files []srcFile, tmpls []*gtemplate, o progOpts, trees []
 	} else {
 		e.res.Histogram["render:calls-partial"]++
 	}
-	declared := map[string]bool{}
+	// the params a render of template `name` may miss: those declared by the templates its calls can reach
+	// (the hook reports the key only, not the executing template; the model's refined counter is exact)
+	byName := map[string]c07Tmpl{}
 	for _, t := range c07Templates(trees) {
-		for _, p := range t.params {
-			declared[p.name] = true
+		if _, dup := byName[t.node.Name]; !dup {
+			byName[t.node.Name] = t
 		}
+	}
+	declaredFrom := func(name string) map[string]bool {
+		declared := map[string]bool{}
+		seen := map[string]bool{}
+		todo := []string{name}
+		for len(todo) > 0 {
+			n := todo[0]
+			todo = todo[1:]
+			t, ok := byName[n]
+			if seen[n] || !ok {
+				continue
+			}
+			seen[n] = true
+			for _, p := range t.params {
+				declared[p.name] = true
+			}
+			cs := map[string]bool{}
+			c07Calls(t.node.Body, cs)
+			for c := range cs {
+				todo = append(todo, c)
+			}
+		}
+		return declared
 	}
 	for _, t := range tmpls {
 		d := genData(e.rng, t.params, o)
@@ -932,6 +957,7 @@ func c07Render(e *env, files []srcFile, tmpls []*gtemplate, o progOpts, trees []
 				Expected: "no unbound lookup", Observed: fmt.Sprint(missed)}, "")
 		}
 		if !total {
+			declared := declaredFrom(t.full())
 			for _, k := range missed {
 				if !declared[k] {
 					e.res.Fail(hx.Violation{Kind: "oracle", What: "rendering an accepted template looks up a name that is neither bound nor a declared param", Case: pc,
